@@ -2,6 +2,7 @@ import GomlVerif.Lemmas.LiftCaptures
 import GomlVerif.Lemmas.LiftNoClosure
 import GomlVerif.Lemmas.LiftSimMain
 import GomlVerif.Lemmas.LiftExamples
+import GomlVerif.Gen.LiftCaptureWalk
 /-!
 C08 — closures keep their lexical meaning after lambda lifting.
 
@@ -72,6 +73,21 @@ theorem captures_types (sc : Scope) (params : List String) (body : Expr) (p : St
   rcases foldl_captureStep_types sc _ [] p h with h | h
   · cases h
   · exact h
+
+/-- The sub-expressions `Model/Lift.lean`'s `collectCaptured` walks, per Lift node kind and in
+    order (transcribed from its equations above: `captures_exact` is proved about exactly this
+    traversal). -/
+def modelCaptureWalk : List (String × List String) := [
+  ("EVar", []), ("EPrim", []), ("EConstr", ["args"]), ("ETuple", ["items"]), ("EArray", ["items"]),
+  ("ELet", ["value", "body"]), ("EMatch", ["expr", "arms", "default"]),
+  ("EIf", ["cond", "then_branch", "else_branch"]), ("EWhile", ["cond", "body"]), ("EGo", ["expr"]),
+  ("EConstrGet", ["expr"]), ("EUnary", ["expr"]), ("EBinary", ["lhs", "rhs"]), ("ECall", ["func", "args"]),
+  ("EToDyn", ["expr"]), ("EDynCall", ["receiver", "args"]), ("EProj", ["tuple"])]
+
+/-- The case list of the Rust `collect_captured`, regenerated from `lift.rs` on every run
+    (`Gen/LiftCaptureWalk.lean`; the extractor itself fails when a variant with sub-expressions sits
+    in a leaf arm or an arm skips such a field), is the traversal of the model. -/
+theorem capture_walk_table : Consts.captureWalk = modelCaptureWalk := by decide
 
 /-! ### no closure node is left -/
 
